@@ -141,10 +141,11 @@ def run_property(spec, tier, seed):
         kinds = {}
         for i, c in enumerate(cases):
             kinds[c.kind] = kinds.get(c.kind, 0) + 1
-            il = st.canon(impl[i]) if st.canon else (st.canon_case(c, impl[i]) if st.canon_case else impl[i])
+            ml = None if model is None else (st.canon(model[i]) if st.canon else model[i])
+            c.meta["model"] = ml           # canon_case may read the reference answer (crash streams)
+            il = st.canon(impl[i]) if (st.canon and not st.canon_case) else (st.canon_case(c, impl[i]) if st.canon_case else impl[i])
             c.meta["impl"] = il            # known_class may look at what the implementation answered
             c.meta["impl_raw"] = impl[i]
-            ml = None if model is None else (st.canon(model[i]) if st.canon else model[i])
             if st.nontrivial is None or st.nontrivial(c, il):
                 seen_nontrivial.add((st.name, c.rust))
             if st.oracle:
